@@ -46,7 +46,8 @@ type FuncContract struct {
 	Ensures    []*Clause
 	Loops      map[int]*LoopContract
 	CallSites  []*CallSite
-	Assigns    []string // nil = unspecified (anything); ["nothing"]; or list of lvalue patterns
+	AtReturn   []*Clause // "at return: assert c": checked at every return, before deferred calls run
+	Assigns    []string  // nil = unspecified (anything); ["nothing"]; or list of lvalue patterns
 	HasAssign  bool
 	NoPanic    bool
 	Trusted    bool // assumed, not verified (external dependency or declared so)
@@ -246,6 +247,15 @@ func (cs *Contracts) loadFile(pkgPath, file string) error {
 				}
 			case "at":
 				// at call <callee>: assert <cond>
+				if rm := regexp.MustCompile(`^return\s*:\s*assert\s+(.*)$`).FindStringSubmatch(rest); rm != nil {
+					e, err := parseContractExpr(rm[1])
+					if err != nil {
+						return fmt.Errorf("%s: %s %s: %v", file, fc.Key, l, err)
+					}
+					counts["atreturn"]++
+					fc.AtReturn = append(fc.AtReturn, &Clause{Kind: "atreturn", Text: rm[1], Expr: e, Props: props, Ord: counts["atreturn"], Line: l})
+					continue
+				}
 				mm := regexp.MustCompile(`^call\s+(\S+)\s*:\s*assert\s+(.*)$`).FindStringSubmatch(rest)
 				if mm == nil {
 					return fmt.Errorf("%s: bad call-site clause: %s", file, l)
